@@ -167,7 +167,13 @@ def mc_programs(alphabet: str, mode: str, maxnodes: int, workers: int = 4, timeo
                       "page": row["page"]})
         exp[pid] = {"id": pid, "out": row["out"], "err": row["err"], "errs": row["errs"], "zone": row["zone"],
                     "insts": row["insts"], "elems": row["elems"], "marks": row["marks"], "deps": row["deps"]}
+        if "depsB" in row:      # C04: the deliveries under the library's second asset alphabet (mc_programs.lib["assetsB"])
+            exp[pid]["depsB"] = row["depsB"]
+    mc_programs.lib = libd
     return progs, exp, r
+
+
+mc_programs.lib = {}            # the exported library of the last enumeration (comps, ctx, assetsB)
 
 
 # ------------------------------------------------------------------ compare + classify
